@@ -10,6 +10,9 @@ TAIL = "exhaustive log-tail mutation enumeration over recorded crash images"
 
 # id -> (engine, technique, level text, level_note, design_ref)
 CHECKS = {
+ "C04": ("E-SEQ", SEQ, "All enabled histories over the storage alphabet (writes incl. multi-label creates, label add/remove, delete+re-create in one transaction, 513-node batches; Compact, CreateIndex, CloseOpen, DropOpen) up to the depth bound are executed on the real engine; after each history the full dump (all read interfaces, internal ids, multiplicities) is taken, the database is dropped+reopened (1st execution) and closed+reopened (2nd execution) and dumped again; dumps must be equal.", "bounded depth and alphabet (listed in the evidence); node-creation symmetry reduction; histories whose non-reopen step fails are skipped (they belong to other properties)", "3/C04"),
+ "C18": ("E-SEQ+monitor", SEQ + " with a page-ownership monitor on every page write", "All enabled histories over node batches of 1/511/512/513/1025 nodes interleaved with property, relationship, vector and index writes, compaction and reopen are executed with a monitor that checks on every page write that the page was allocated to the writing structure; the dump must equal the model, survive reopen, and vacuum's reachability walk must succeed.", "ownership is tracked by structure kind (idmap, btree, blob, csr, catalog)", "3/C18"),
+ "C28": ("E-SEQ", SEQ, "All enabled histories (writes, vectors, Compact, CreateIndex, CloseOpen) up to the depth bound; then close, vacuum, open: vacuum must succeed, the dump incl. index lookups and vector search must be unchanged, and a further transaction must commit and survive another reopen.", "differential oracle (same engine before/after vacuum)", "3/C28"),
  "C01": ("E-CRASH", CRASH, "Every history of the crash alphabet up to the bound is run once on the real engine under an I/O recorder; every event index is a crash point; process-death and all enumerated power-loss images are recovered by the real Db::open and the acknowledged counter must survive, also through one continuation commit, a crash at each of its I/O steps and two more reopens. Exhaustive within the stated bounds; the recorded log is validated by replaying it onto empty files and comparing with the real files byte for byte.", "disk model of rt.rs (atomic ordered writes for process death; fsync-only durability with enumerated subsets, 4 KiB sectors, journalled renames for power loss); bounded histories; HashMap iteration order inside one WAL transaction is not controlled", "3/C01"),
  "C02": ("E-CRASH", CRASH, "Same enumeration as C01 with the prefix oracle: the state recovered from every crash image must equal the clean state after some prefix of the operations started so far (full dump through every read interface), and recovery must succeed.", "as C01; reference states are produced by the same engine without crashes (differential)", "3/C02"),
  "C08": ("E-CRASH(fault)", FAULT, "For every history and every counted I/O step k a one-shot EIO is injected at k; the faulted operation must be all-or-nothing live and after reopen, and a later transaction must commit and survive.", "single fault per execution; the seam returns the error instead of performing the effect", "3/C08"),
